@@ -52,6 +52,10 @@ class State:
     def assume(self, b):
         if z3.is_true(b):
             return
+        if z3.is_and(b):
+            for c in b.children():
+                self.assume(c)
+            return
         self.pc.append(b)
 
     def note_ref(self, cname, t):
